@@ -27,6 +27,11 @@ void     vf_observe_f64(const char * name, double v);
 void     vf_observe_i64(const char * name, int64_t v);
 // equality of two computed reals: exact in the symbolic domains, |a-b| <= 1e-9*max(1,|a|,|b|) on IEEE doubles
 bool     vf_eq(double a, double b);
+// lock-set monitor (C19): watch an object (footprint = its storage + heap reachable from it) guarded by `mutex`;
+// vf_thread(k, label) attributes the following calls to logical thread k (0 = harness itself, not monitored)
+void     vf_watch(const void * object, int64_t size, const void * mutex, const char * name);
+void     vf_thread(int64_t k, const char * label);
+void     vf_watch_end();
 // k-th loop-carried value havocked by a loop summary on this path ("value at the start of the last iteration")
 double   vf_havoc(int64_t k);
 // 1 while executing symbolically (vf_d available), 0 in concrete runs (engine or native): use finite differences there
